@@ -205,13 +205,13 @@ def rule_rcu_discipline(ctx, rid, funcs, reason, contract=None, bound=3000, dere
     if contract is not None:
         allowed = set(contract)
         called = set(cm for lst in sites.values() for cm, cq, depth, node in lst)
-        called_q = set(cq for lst in sites.values() for cm, cq, depth, node in lst)
+        called_q = set((cq, len(node.get("args", []))) for lst in sites.values() for cm, cq, depth, node in lst)
         for m in locked:
             if m not in fmap:
                 continue
             # only entry points (members no analysed function calls): an internal helper that relies on its caller's lock is fine as long as
             # every chain of callers ends in a lock scope or in a documented 'RCU must be locked' entry point
-            if m in called or fmap[m].q in called_q:
+            if m in called or (fmap[m].q, len(fmap[m].params)) in called_q:
                 continue      # (by name as well: the caller may be an instantiation that was not parsed)
             F = fmap[m]
             key = "%s|%s" % (F.q, F.file.split("/cds/")[-1])
